@@ -1,7 +1,8 @@
 /-! Model of track simplification (`tracklib/algo/simplification.py`: `douglas_peucker`, `visvalingam`;
 `tracklib/util/geometry.py`: `distance_to_segment`, `triangle_area`, `aire_visval`; `Operator.ARGMIN` of
 `core/operators.py`), as the code is after the repairs ec611a5 (`l == 0` branch), 1a5eeec (NaN area at
-index 0, `while size > 2`) and 68863c7 (ARGMIN starts from `+inf`).
+index 0, `while size > 2`), 68863c7 (ARGMIN starts from `+inf`) and b728412 (ARGMIN records no index until a number
+`<=` its start value is met: a column of infinite areas answers the first of them, not the NaN at index 0).
 
 Scalar-polymorphic, core Lean only. `sqrt` is a parameter (`math.sqrt`), `big` is ARGMIN's initial minimum:
 `float('inf')` since 68863c7 (`1e300` before; the driver passes the current value, the theorems hold for any).
@@ -143,15 +144,20 @@ def aireVisval (S : List (Fix α)) (i : Nat) : Option α :=
 def vwInit (L : List (Fix α)) : VState α :=
   L.zipIdx.map (fun pi => (pi.1, if pi.2 = 0 then none else aireVisval L pi.2))
 
-/-- `Operator.ARGMIN`: `minimum = float('inf')` (`big`; `+1e300` before 68863c7)`; idmin = 0; if val < minimum: …` (strict: first minimum;
-NaN never compares smaller) -/
-def argminLoop : List (Option α) → Nat → α → Nat → Nat
+/-- `Operator.ARGMIN` (core/operators.py, as it is since b728412): `minimum = float('inf')` (`big`; `+1e300` before 68863c7);
+`idmin = None`; `if val < minimum or (idmin is None and val == minimum): minimum = val; idmin = i` — strict afterwards, so the
+**first** index of the smallest number wins; a number equal to the start value is taken as long as no index has been
+recorded (before b728412 the scan started from `idmin = 0` and only moved on `val < minimum`: a column `[nan, inf, inf]`
+answered 0, the index of the NaN); NaN never compares smaller nor equal. `none` = no index recorded. -/
+def argminLoop : List (Option α) → Nat → α → Option Nat → Option Nat
   | [], _, _, idmin => idmin
   | none :: rest, i, minimum, idmin => argminLoop rest (i + 1) minimum idmin
   | some v :: rest, i, minimum, idmin =>
-    if v < minimum then argminLoop rest (i + 1) v i else argminLoop rest (i + 1) minimum idmin
+    if v < minimum ∨ (idmin = none ∧ (v == minimum) = true) then argminLoop rest (i + 1) v (some i)
+    else argminLoop rest (i + 1) minimum idmin
 
-def argmin (big : α) (col : List (Option α)) : Nat := argminLoop col 0 big 0
+/-- `return 0 if idmin is None else idmin` -/
+def argmin (big : α) (col : List (Option α)) : Nat := (argminLoop col 0 big none).getD 0
 
 /-- `setObsAnalyticalFeature("@aire", i, aire_visval(output, i))` -/
 def setAire (S : VState α) (i : Nat) : VState α :=
